@@ -22,6 +22,9 @@ type Case struct {
 	Alpha  string   `json:"alpha,omitempty"`
 	PLen   int      `json:"plen,omitempty"`
 	Full   bool     `json:"full,omitempty"`
+	// Undrained: before every StartsWith / Keys query another listing is requested and its
+	// result queue is NOT read, as a caller that only wanted the first few keys would leave it.
+	Undrained bool `json:"undrained,omitempty"`
 }
 
 func hx(s string) string { return fmt.Sprintf("%x", s) }
@@ -146,6 +149,11 @@ func run(w *core.Worker, c Case) {
 				}
 			}
 			// StartsWith
+			if c.Undrained {
+				if uq, uerr := tr.Keys(); uerr == nil && uq.Size() > 1 {
+					uq.Dequeue() // read one key, leave the rest
+				}
+			}
 			qq, err := tr.StartsWith(pr)
 			if pr == "" {
 				if err == nil {
@@ -169,6 +177,9 @@ func run(w *core.Worker, c Case) {
 					return false
 				}
 			}
+		}
+		if c.Undrained && len(keys) > 0 {
+			tr.StartsWith(keys[0][:1]) // left unread
 		}
 		kq, err := tr.Keys()
 		if err != nil {
@@ -252,7 +263,7 @@ func run(w *core.Worker, c Case) {
 func TestProp(t *testing.T) {
 	r := core.Start(t, "C09")
 	defer r.Finish()
-	r.Rule("cases = sequences of Put (value = position) on trie.Trie[string,int] backed by queue.Queue, checked against a map model: Size, and for every probe string Get, Contains, LongestPrefix and the drained StartsWith queue, plus the drained Keys queue in byte order, after the last Put (sweep) or every Put (random), incl. the empty key/prefix/query; non-trivial = at least 2 distinct keys; distinct by hash of the case")
+	r.Rule("cases = sequences of Put (value = position) on trie.Trie[string,int] backed by queue.Queue, checked against a map model: Size, and for every probe string Get, Contains, LongestPrefix and the drained StartsWith queue, plus the drained Keys queue in byte order, after the last Put (sweep) or every Put (random), incl. the empty key/prefix/query; in half of the cases every listing query is preceded by another listing whose result queue is left (partly) unread; non-trivial = at least 2 distinct keys; distinct by hash of the case")
 
 	type cfg struct {
 		alpha        string
@@ -271,7 +282,12 @@ func TestProp(t *testing.T) {
 			for i, k := range keys {
 				hk[i] = hx(k)
 			}
-			n := seq.Enum(hk, cf.n, func(p []string) { emit(Case{Puts: p, Alpha: cf.alpha, PLen: cf.pln}) })
+			n := seq.Enum(hk, cf.n, func(p []string) {
+				emit(Case{Puts: p, Alpha: cf.alpha, PLen: cf.pln})
+				if len(p) <= cf.n-1 {
+					emit(Case{Puts: p, Alpha: cf.alpha, PLen: cf.pln, Undrained: true})
+				}
+			})
 			r.Exhaustive(fmt.Sprintf("all Put sequences (with repeats, i.e. all key multisets in all insertion orders) of <=%d keys of length 1..%d over %q, probed with every string of length<=%d", cf.n, cf.klen, cf.alpha, cf.pln), n)
 		}
 	}, run)
@@ -315,7 +331,7 @@ func TestProp(t *testing.T) {
 			for j := 0; j < 6; j++ {
 				pset[rs(4)] = true
 			}
-			c := Case{Full: true, Probes: []string{}}
+			c := Case{Full: true, Probes: []string{}, Undrained: i%2 == 1}
 			for _, k := range keys {
 				c.Puts = append(c.Puts, hx(k))
 			}
